@@ -486,6 +486,7 @@ class Interp:
         if isinstance(s, ast.Continue):
             return [Outcome(CONTINUE, None, st)]
         if isinstance(s, ast.Delete):
+            st.trace.append(Event('delete', [unparse(t) for t in s.targets], s, st.frame.func))
             return [Outcome(NORMAL, None, st)]
         raise AnalysisError('statement kind not understood: %s at %s:%d' % (
             type(s).__name__, st.frame.module.relpath, getattr(s, 'lineno', 0)))
